@@ -110,6 +110,8 @@ class Run:
         self.problems = []
         self.finished = False
         self.send_checks = 0
+        self.quiescent_checks = 0
+        self.send_methods = set()
         self.left_by_exception = False
         self.app = falcon.asgi.App()
         self.app.ws_options.max_receive_queue = cap
@@ -135,6 +137,18 @@ class Run:
             await self.gate
         finally:
             self.gate = None
+
+    async def _send(self, ws, i):
+        # every public send method reaches the same disconnect check; which one a step uses rotates with the
+        # configuration so that all of them meet every script shape
+        which = (self.cap + self.k + i) % 3      # (BINARY media needs msgpack, which is not installed here)
+        if which == 0:
+            await ws.send_text('s%d' % i)
+        elif which == 1:
+            await ws.send_data(b's%d' % i)
+        else:
+            await ws.send_media({'s': i})
+        self.send_methods.add(which)
 
     async def _recv_into_R(self, ws):
         v = await ws.receive_text()
@@ -166,14 +180,14 @@ class Run:
                     v2 = await self._recv_into_R(ws)
                     out = ('value', v1, v2)
                 elif kind == 'send':
-                    await ws.send_text('s%d' % i)
+                    await self._send(ws, i)
                     out = ('ok',)
                 elif kind in ('send!', 'recv!'):
                     # the responder does not catch: WebSocketDisconnected ends it by exception (the framework's
                     # error path, not its normal-return path, then has to clean up)
                     try:
                         if kind == 'send!':
-                            await ws.send_text('s%d' % i)
+                            await self._send(ws, i)
                             out = ('ok',)
                         else:
                             v = await self._recv_into_R(ws)
@@ -268,6 +282,15 @@ class Run:
                 self.problems.append(('held-over-bound', {'held': held_all, 'cap': self.cap}))
             if held_all >= self.cap + 1 and self.server.pending_getters() and not self._app_receiving_direct():
                 self.problems.append(('pull-while-full', {'held': held_all, 'cap': self.cap}))
+            # bounded progress: at a quiescent point (nothing runnable) the background reader must not sit idle while
+            # an event has arrived at the server and the queue has room again (that is also how a sender learns of
+            # a disconnect "promptly")
+            if not self.st.loop._ready and self.server.inbox and br._pump_task is not None and not br._pump_task.done() \
+                    and len(br._messages) < self.cap and not self.finished:
+                self.problems.append(('reader-idle-although-room', {'deque': len(br._messages), 'cap': self.cap,
+                                                                      'arrived_not_pulled': len(self.server.inbox)}))
+            if not self.st.loop._ready:
+                self.quiescent_checks += 1
         else:
             if held_all > 1:
                 self.problems.append(('held-over-bound-unbuffered', {'held': held_all}))
@@ -326,6 +349,9 @@ class Run:
                 probs.append(('receive-left-waiting', {'deque': len(br._messages), 'inbox': len(self.server.inbox),
                                                        'in_op': self.in_op}))
             rec.count('mon.lost_wakeup')
+        rec.count('mon.reader_progress_at_quiescence', self.quiescent_checks)
+        for w in self.send_methods:
+            rec.count('cls.send_method_%d' % w)
         # -- FIFO / no loss / no duplication
         rec.count('mon.fifo')
         if self.R != self.msgs[:len(self.R)]:
@@ -508,8 +534,8 @@ def explore(rec, st, cfg, max_nodes):
     return terminals
 
 
-def random_walk(rec, st, cfg):
-    rng = rec.rng
+def random_walk(rec, st, cfg, rng=None):
+    rng = rng or rec.rng
     run = Run(st, *cfg)
     actions = []
     for _ in range(400):
@@ -526,6 +552,25 @@ def random_walk(rec, st, cfg):
     rec.seen('schedules', (cfg, tuple(actions)))
     rec.case((cfg, tuple(actions)))
     rec.count('random.walks')
+    if probs:
+        report(rec, cfg, actions, probs)
+
+
+def policy_walk(rec, st, cfg, prefs):
+    """One schedule chosen by a fixed preference order over the enabled controller actions."""
+    run = Run(st, *cfg)
+    actions = []
+    for _ in range(600):
+        acts = run.enabled()
+        if not acts or run.problems:
+            break
+        a = next((p for p in prefs if p in acts), acts[0])
+        actions.append(a)
+        run.apply(a)
+    probs = run.finish(rec)
+    rec.seen('schedules', (cfg, tuple(actions)))
+    rec.case((cfg, tuple(actions)))
+    rec.count('policy.walks')
     if probs:
         report(rec, cfg, actions, probs)
 
@@ -570,6 +615,23 @@ def run(rec):
     if rec.shard == 0:
         rec.note('exhaustive bounds: capacities %s, messages <= %d, script length <= %d; configurations: %d'
                  % ('0-2' if quick else '0-4', 2 if quick else 3, 2 if quick else 3, len(cfgs)))
+    # ---- capacities beyond the exhaustive bound (the docs allow any size): guided schedules - deliveries first,
+    #      application first, alternating - plus a few random walks each; more messages than the queue holds
+    big = [(cap, cap + extra, disc, script)
+           for cap in (5, 8, 9, 16, 17, 32)
+           for extra in (0, 2)
+           for disc in (True, False)
+           for script in (('recv', 'send', 'send'), ('recv', 'recv', 'send', 'recv'), ('recv2', 'send', 'recv'),
+                          ('send', 'recv', 'send', 'send'), ('rstart', 'rawait', 'send', 'send'), ('recv',) * 3 + ('send', 'close'))]
+    wrng = __import__('random').Random(99 + rec.shard)
+    for i, cfg in enumerate(big):
+        if i % rec.nshards != rec.shard:
+            continue
+        for prefs in (('D', 'A', 'T'), ('A', 'D', 'T'), ('DA', 'T', 'A', 'D'), ('T', 'D', 'A')):
+            policy_walk(rec, st, cfg, prefs)
+        for _ in range(2 if quick else 10):
+            random_walk(rec, st, cfg, wrng)
+        rec.count('big.configs')
     rng = rec.rng
     t0 = rec.elapsed()
     rand_budget = max(rec.budget_s * 0.25, rec.time_left() * 0.9)
@@ -593,7 +655,8 @@ def run(rec):
                 elif s in ('rcancel', 'rawait'):
                     pending = False
                 script.append(s)
-            cfg = (rng.choice([0, 1, 1, 2, 3, 4]), rng.randint(0, 8 if quick else 12), rng.random() < 0.6, tuple(script))
+            cap = rng.choice([0, 1, 1, 2, 3, 4, 4, rng.randint(5, 20)])
+            cfg = (cap, rng.randint(0, max(8 if quick else 12, cap + 3)), rng.random() < 0.6, tuple(script))
             random_walk(rec, st, cfg)
     st.close()
     rec.floor('mon.fifo', 200)
@@ -607,6 +670,10 @@ def run(rec):
     rec.floor('cls.cancel_pending_receive', 2)
     rec.floor('cls.responder_left_by_exception', 5)
     rec.floor('random.walks', 20)
+    rec.floor('policy.walks', 40)
+    rec.floor('mon.reader_progress_at_quiescence', 200)
+    for w in range(3):
+        rec.floor('cls.send_method_%d' % w, 20)
 
 
 def replay(rec, w):
